@@ -198,6 +198,29 @@ pub fn corpus(out: &mut Out, prop: &str) {
     ]);
 }
 
+/// deadlines within 500 ms of i64::MAX: EXPIRETIME's `saturating_add(500)` clamps there (hypothesis
+/// `Room` of `Props.C01Exec`). Redis' own `(expire + 500) / 1000` overflows a long long at that point, so
+/// the reference model has no say: these commands are compared with the executor transcription only.
+pub fn expiretime_edge_corpus(out: &mut Out, prop: &str) {
+    for back in [0i64, 1, 499, 500, 501, 1000] {
+        let mut s = reset(out, BASE_MS);
+        let mut seq: Vec<String> = vec![];
+        let steps = vec![
+            (false, Command::set(k("k"), s_("v"))),
+            (false, Command::PExpireAt(k("k"), i64::MAX - back)),
+            (true, Command::ExpireTime(k("k"))),
+            (false, Command::PExpireTime(k("k"))),
+            (false, Command::Pttl(k("k"))),
+        ];
+        for (xc_only, cmd) in steps {
+            seq.push(format!("{:?}", cmd));
+            s.xc_only = xc_only;
+            do_step(out, &mut s, &cmd, prop, &seq);
+        }
+    }
+    out.count("corpus:expiretime-near-i64-max");
+}
+
 /// every command that reads or writes an ABSOLUTE time, under every configuration of the executor's
 /// epoch fields (class "configuration": `simulation_start_epoch`, `simulation_start_epoch_ms`)
 pub fn epoch_corpus(out: &mut Out, prop: &str) {
@@ -381,6 +404,7 @@ pub fn run(a: &Args) {
     let mut rng = Rng::new(a.seed);
     corpus(&mut out, "C01");
     epoch_corpus(&mut out, "C01");
+    expiretime_edge_corpus(&mut out, "C01");
     let mut srng = Rng::new(a.seed ^ 0x5CA9);
     scan_pass(&mut out, &mut srng, (a.n / 10).clamp(30, 3000));
     // the data structures behind the commands, driven directly (`DS …` lines); its own stream, so
